@@ -328,11 +328,41 @@ def inittoken_races(ctx, backend):
     except Hang: ctx.inconc(f'hang in the C_InitToken race lane ({backend})')
     finally: x.kill() if x.p.poll() is None else None
 
+def reconfigured_tokendir(ctx, backend):
+    """one process, three initialisations: token directory A, then (softhsm2.conf rewritten) a fresh directory B, then A again -- each initialisation shows exactly the tokens of the
+    directory now configured (a token list, slot map or handle cached from the previous initialisation would show up as a token of the other directory)"""
+    ck = ctx.ck; d = ctx.dir('c14cfg'); x = ctx.new_exec('asan', d, backend); SO = b'so-pin-14c'
+    def conf(sub): os.makedirs(f'{d}/{sub}', exist_ok=True); open(f'{d}/softhsm2.conf', 'w').write(f'directories.tokendir = {d}/{sub}\nobjectstore.backend = {backend}\nlog.level = ERROR\nslots.removable = false\n')
+    def init_token(label):
+        x.call('C_GetSlotList', null=True); free = x.call('C_GetSlotList', count=16)['slots'][-1]; r = x.call('C_InitToken', slot=free, pin=SO.hex(), label=label.hex()); assert r['rv'] == 0, r
+        s = x.call('C_OpenSession', slot=free)['h']; assert x.call('C_Login', s=s, user=0, pin=SO.hex())['rv'] == 0
+        r = x.call('C_CreateObject', s=s, tmpl=x.T({'CKA_CLASS': ck.CKO_DATA, 'CKA_TOKEN': True, 'CKA_PRIVATE': False, 'CKA_LABEL': b'obj-of-' + label, 'CKA_VALUE': b'v'})); assert r['rv'] == 0, r
+    def objects():
+        out = []
+        for sl in x.call('C_GetSlotList', count=16)['slots']:
+            ti = x.call('C_GetTokenInfo', slot=sl)
+            if ti['rv'] == 0 and ti['flags'] & ck.CKF_TOKEN_INITIALIZED:
+                s = x.call('C_OpenSession', slot=sl)['h']; out += [x.getattrs(s, h, ['CKA_LABEL'])[1].get('CKA_LABEL') for h in x.findall(s, {})[1]]; x.call('C_CloseSession', s=s)
+        return sorted(o.decode('latin-1') if o else '?' for o in out)
+    try:
+        conf('tokens'); assert x.call('C_Initialize', locking='os')['rv'] == 0; init_token(b'A1'); init_token(b'A2'); cenA = token_census(x, ck); objA = objects(); assert x.call('C_Finalize')['rv'] == 0
+        conf('tokensB'); assert x.call('C_Initialize', locking='os')['rv'] == 0; cen0 = token_census(x, ck)
+        if cen0: ctx.violation(f'C_Initialize|{backend},token-directory-changed-between-initialisations|tokens-of-the-previous-directory-shown', 'after C_Finalize and a C_Initialize under another directories.tokendir (an empty directory) initialised tokens are listed', {'found': cen0})
+        init_token(b'B1'); cenB = token_census(x, ck); objB = objects(); assert x.call('C_Finalize')['rv'] == 0
+        conf('tokens'); assert x.call('C_Initialize', locking='os')['rv'] == 0; cenA2 = token_census(x, ck); objA2 = objects()
+        if cenA2 != cenA or objA2 != objA: ctx.violation(f'C_Initialize|{backend},token-directory-changed-between-initialisations|tokens-or-objects-differ-after-switching-back', 'after switching to another token directory and back, the tokens / objects of the first directory are not found as they were', {'before': [cenA, objA], 'after': [cenA2, objA2]})
+        if [c[0] for c in cenB] != ['B1'] or objB != ['obj-of-B1']: ctx.violation(f'C_Initialize|{backend},token-directory-changed-between-initialisations|second-directory-shows-other-tokens', 'the second token directory does not show exactly the token created in it', {'found': [cenB, objB]})
+        ctx.case(('reconfigured-tokendir', backend), sample={'reconfigured_tokendir': {'backend': backend, 'A': cenA, 'B': cenB}}); x.call('C_Finalize')
+    except AssertionError as e: ctx.inconc(f'reconfigured-tokendir scenario could not run ({backend}): {e!r}')
+    except Died as e: ctx.observe('side:C17 library terminated the host', {'kind': e.kind(), 'fn': e.fn}); ctx.inconc(f'executor died in the reconfigured-tokendir scenario ({backend})')
+    except Hang: ctx.inconc(f'hang in the reconfigured-tokendir scenario ({backend})')
+    finally: x.kill() if x.p.poll() is None else None
+
 def run(ctx):
     ctx.need('asan')
     for be in ('file', 'db'): reinit_two_process(ctx, be)
     for be in ('file', 'db'): noninterference(ctx, be)
-    for be in ('file', 'db'): inittoken_faults(ctx, be); inittoken_races(ctx, be)
+    for be in ('file', 'db'): inittoken_faults(ctx, be); inittoken_races(ctx, be); reconfigured_tokendir(ctx, be)
     ctx.rule = ('histories over 2-4 tokens: C_InitToken (fresh on the free slot / re-init, right / wrong SO PIN, with / without sessions), softhsm2-util --init-token / --delete-token of the same build as another actor, '
                 'object and PIN operations, C_Finalize/C_Initialize and new-process restarts (40 % of them after stray non-token entries were put into the token directory); after every call every OTHER token is probed (session states, visible object set, an attribute) against the model, '
                 'after every restart every token must be found again under slot = last 8 hex digits of the serial & 0x7fffffff with label/flags unchanged, and quiescent audits log in with both PINs and compare all objects; '
